@@ -3,7 +3,7 @@
   D-C04 repair (two wall-clock transition lists indexed by fold).
 
   * `decode : List UInt8 → Py.R Raw` mirrors lines 501-628: magic, 16 skipped bytes, six big-endian
-    signed counts, the version-1 block only (`>l` transitions, `B` indices, `>lbb` ttinfo records,
+    signed counts, the version-1 block only (`>l` transitions, `B` indices, `>lbB` ttinfo records,
     the abbreviation block sliced at NUL with Python's slice/find semantics for negative or
     dangling indices, leap-second skip, isstd / isgmt), the `_ttinfo` list, and the replacement of
     type indices by objects (`IndexError` for an index ≥ typecnt).  `struct.error` is the kind
@@ -83,12 +83,12 @@ def readBytes (s : List UInt8) (cnt : Int) : R (List UInt8 × List UInt8) :=
     let (d, rest) := readN s cnt
     if d.length ≠ cnt.toNat then .error .StructError else .ok (d, rest)
 
-/-- `for i in range(typecnt): struct.unpack(">lbb", read(6))` -/
+/-- `for i in range(typecnt): struct.unpack(">lbB", read(6))` (tt_abbrind is an unsigned byte; /repo 3b2dec8) -/
 def readTtinfo : Nat → List UInt8 → R (List (Int × Int × Int) × List UInt8)
   | 0, s => .ok ([], s)
   | k + 1, a :: b :: c :: d :: e :: f :: rest => do
       let (l, r) ← readTtinfo k rest
-      .ok ((be32s a b c d, s8 e, s8 f) :: l, r)
+      .ok ((be32s a b c d, s8 e, (f.toNat : Int)) :: l, r)
   | _ + 1, _ => .error .StructError
 
 /-- `abbr[abbrind:abbr.find('\x00', abbrind)]` with Python's semantics for a negative or
